@@ -15,7 +15,7 @@ SPECIAL = ["k", "K", "K", "s", "S", "ſ", "ß", "ﬁ", "\x00", "\U0010ffff", "
 
 class GrammarGen:
     def __init__(self, rng: random.Random, alph=BASE_ALPH, specials=0.08, flags=0.15, excl=0.3,
-                 recursion=0.25, prose=0.04, undef=0.0):
+                 recursion=0.25, prose=0.04, undef=0.0, top_flags_only=False):
         self.rng = rng
         self.alph = alph
         self.p_special = specials
@@ -24,6 +24,7 @@ class GrammarGen:
         self.p_rec = recursion
         self.p_prose = prose
         self.p_undef = undef
+        self.top_flags_only = top_flags_only
 
     def ch(self):
         if self.rng.random() < self.p_special:
@@ -77,12 +78,30 @@ class GrammarGen:
         n = nrules or rng.randint(1, 4)
         rules = []
         for k in range(n):
-            rules.append([f"r{k}", self.expr(depth, k, n), None])
+            body = self.expr(depth, k, n)
+            if self.top_flags_only:
+                body = strip_flags(body)
+                if body[0] == "alt" and rng.random() < 0.7:
+                    body = ("alt", body[1], True)
+            rules.append([f"r{k}", body, None])
         if n >= 2 and rng.random() < self.p_excl:
             a = rng.randrange(0, n - 1)
             b = rng.randrange(a + 1, n)
             rules[a][2] = b
         return [tuple(r) for r in rules]
+
+
+def strip_flags(e):
+    k = e[0]
+    if k == "alt":
+        return ("alt", [strip_flags(x) for x in e[1]], False)
+    if k == "cat":
+        return ("cat", [strip_flags(x) for x in e[1]])
+    if k == "rep":
+        return ("rep", e[1], e[2], strip_flags(e[3]))
+    if k == "opt":
+        return ("opt", strip_flags(e[1]))
+    return e
 
 
 def consuming(e) -> bool:
